@@ -3,7 +3,7 @@
 (* C18 (L0, LastN): trace validation of the real circular queue.           *)
 (* Sequential cases (exhaustive Add/Get sequences, long runs):             *)
 (*   [ev |-> "new", n]   [ev |-> "add", id, len]   [ev |-> "addn", from, to, len] *)
-(*   [ev |-> "get", res, len]                                              *)
+(*   [ev |-> "get", res, len]   [ev |-> "still", was, now]                 *)
 (* Concurrent cases, events ordered by an atomic stamp:                    *)
 (*   [ev |-> "cnew", n]                                                    *)
 (*   [ev |-> "acall", id]  [ev |-> "alin", id, idx]  [ev |-> "aret", id]   *)
@@ -45,6 +45,9 @@ Next == /\ l <= Len(Trace)
                   /\ UNCHANGED <<n, nret, gfloor, floor>>
              [] e.ev = "get" ->
                   /\ Flag(e.res = LastMin(n, adds) /\ Len(e.res) <= n /\ e.len = Len(e.res))
+                  /\ UNCHANGED <<n, adds, nret, gfloor, floor>>
+             [] e.ev = "still" ->         \* an earlier snapshot read again after later additions: it has not changed
+                  /\ Flag(e.now = e.was)
                   /\ UNCHANGED <<n, adds, nret, gfloor, floor>>
              [] e.ev = "acall" -> UNCHANGED <<bad, n, adds, nret, gfloor, floor>>
              [] e.ev = "alin" ->
